@@ -315,6 +315,9 @@ class FermionicArray(AbelianArray):
 
         if axes is None:
             axes = tuple(range(new.ndim - 1, -1, -1))
+        else:
+            # the phase calculation needs actual positions, not negative axes
+            axes = tuple(ax + new.ndim if ax < 0 else ax for ax in axes)
 
         if phase:
             # compute new sector phases
@@ -393,6 +396,10 @@ class FermionicArray(AbelianArray):
         FermionicArray
         """
         new = self if inplace else self.copy()
+
+        if axes is not None:
+            # the phase calculation needs actual positions, not negative axes
+            axes = tuple(ax + new.ndim if ax < 0 else ax for ax in axes)
 
         for sector in new.sectors:
             parities = tuple(new.symmetry.parity(q) for q in sector)
